@@ -427,7 +427,58 @@ def rule_segtwin(ctx):
             yield o
 
 
+def rule_amibounds(ctx):
+    """AMI: the upper summation limits min(a_i, b_j) + 1 are laid out on the (R, C) grid of the contingency table with
+    the row marginals a along axis 0 and the column marginals b along axis 1 (a is resized to (C, R) and transposed, b
+    to (R, C)); laying both out the same way mis-pairs the marginals and makes the expected MI depend on which side is
+    the reference."""
+    R = "C06.AMIBOUNDS"
+    f = ctx.program.func("segment._adjusted_mutual_info_score", R)
+    s = ctx.S.get(f.qual)
+    mins = [c for c in s.calls() if c.callee == "np.minimum" and all(any(x.op == "call" and call_name(x) == "np.resize" for x in tm.walk(a)) for a in c.args[:2])]
+    need(len(mins) == 1 and len(mins[0].args) == 2, R, "_adjusted_mutual_info_score: min(a, b) grid not found")
+    x, y = mins[0].args
+
+    def lay(t):
+        tr = False
+        if t.op == "call" and call_name(t) == "np.transpose" and t.a[1]:
+            tr = True
+            t = t.a[1][0]
+        if not (t.op == "call" and call_name(t) == "np.resize" and len(t.a[1]) == 2 and t.a[1][1].op == "tuple" and len(t.a[1][1].a) == 2):
+            return None
+        marg = t.a[1][0]
+        ax = None
+        for z in tm.walk(marg):
+            if z.op == "call" and call_name(z) == "np.sum":
+                for k, v in z.a[2]:
+                    if k == "axis" and v.op == "const":
+                        ax = int(v.a[0])
+        dims = []
+        for d in t.a[1][1].a:
+            dims.append(int(d.a[1].a[0]) if d.op == "sub" and d.a[0].op == "attr" and d.a[0].a[1] == "shape" and d.a[1].op == "const" else None)
+        return tr, ax, tuple(dims)
+
+    lx, ly = lay(x), lay(y)
+    good = False
+    why = "layout not recognised: %s / %s" % (tm.show(x, 3), tm.show(y, 3))
+    if lx is not None and ly is not None:
+        # row marginals (sum over axis 1, length R = shape[0]) must vary along axis 0 of an (R, C) grid:
+        # either resize(a, (C, R)).T or an equivalent; column marginals (sum over axis 0) along axis 1: resize(b, (R, C))
+        def ok(l):
+            tr, ax, dims = l
+            if ax == 1:  # a, length shape[0]
+                return tr and dims == (1, 0)
+            if ax == 0:  # b, length shape[1]
+                return (not tr) and dims == (0, 1)
+            return False
+
+        good = ok(lx) and ok(ly) and {lx[1], ly[1]} == {0, 1}
+        why = "row marginals are laid out as resize(a, (C, R)).T and column marginals as resize(b, (R, C))" if good else "marginals are laid out as %s and %s (transposed?, summed axis, resize dims): both on the same orientation mis-pairs a_i with b_j" % (lx, ly)
+    yield ob(R, f, "segment._adjusted_mutual_info_score:limit-grid", good, why, node=mins[0].node)
+
+
 RULES = [
+    ("C06.AMIBOUNDS", 1, rule_amibounds),
     ("C06.SEGTWIN", 5, rule_segtwin),
     ("C06.CLOSEDWINDOW", 3, rule_closedwindow),
     ("C06.PRMIRROR", 12, rule_prmirror),
